@@ -2,15 +2,15 @@
 (* The Spec as judge of concrete strings: the adapter abstracts each concrete string
    (seeded mutations, serialisations of real cap objects, random printable strings)
    into the exact character classes of Caps.tla; this module evaluates Caps!Parse on
-   every one of them and writes the expected result for the comparison. *)
+   every one of them and writes the expected result for the comparison.  (Exact classes only:
+   the imprecise characters Bl / Bx / Dg never occur here, so every string is Decidable.) *)
 EXTENDS Caps, Json, IOUtils
 
 ASSUME LET in == JsonDeserialize(IOEnv.IN_FILE) IN
        ndJsonSerialize(IOEnv.OUT_FILE,
           [i \in 1..Len(in) |->
              LET r == Parse(in[i].chars, in[i].deep) IN
-             [kind |-> r.kind, err |-> r.err, why |-> r.why, lo |-> r.lo, hi |-> r.hi,
-              decidable |-> Decidable(in[i].chars)]])
+             [kind |-> r.kind, err |-> r.err, why |-> r.why, lo |-> r.lo, hi |-> r.hi]])
 
 VARIABLE x
 Init == x = 0
